@@ -169,6 +169,15 @@ pub fn programs() -> Vec<Prog> {
     p.push(None, Stmt::Ret);
     p.push(Some("site"), Stmt::Jsr(lbl("f")));
     v.push(Prog::new("call-in-last-word-of-user-space", p, true));
+    // HALT spelled with the ignored bits 11:8 of a trap word set (xF325): the machine halts on it
+    // like on xF025
+    let mut p = Program::default();
+    p.push(None, Stmt::Add(1, 1, Src2::Imm(Lit::dec(1))));
+    p.push(Some("loop"), Stmt::Add(1, 1, Src2::Imm(Lit::dec(1))));
+    p.push(Some("site"), Stmt::Fill(Lit::hex(0xF325)));
+    p.push(Some("after"), Stmt::Add(1, 1, Src2::Imm(Lit::dec(1))));
+    p.push(Some("end"), Stmt::Named(0x25, "halt"));
+    v.push(Prog::new("halt-spelled-xF325", p, true));
     v
 }
 
